@@ -1,5 +1,5 @@
 #!/usr/bin/env python3
-"""Build-time seam for procsim: GuardianSetState's mutex (node/pkg/common/guardianset.go) becomes
+"""Build-time seams for procsim. First: GuardianSetState's mutex (node/pkg/common/guardianset.go) becomes
 a channel-based lock in a scratch copy taken from /repo's current working tree. The state is shared
 between the processor's Run loop and the gossip side (heartbeats); a goroutine parked on a
 sync.Mutex is not durably blocked for testing/synctest, so a lock that is never released would
@@ -8,14 +8,34 @@ hang the bubble instead of showing up as a processor that stops consuming its in
 checks then run on the unmodified file); the race-detector builds always use the unmodified file."""
 import json, os, re, sys
 repo, build = sys.argv[1], sys.argv[2]
+# Second seam (all builds): the Cloud KMS signer's conversion of a DER signature into the node's
+# 65-byte form is package-private; a one-line file added to package ecdsasigner hands it to the
+# harness, whose signer then runs every signature through it (the KMS gRPC call itself is stubbed).
+# If the function is not there in the expected shape the variable stays nil and the harness signs
+# without it.
+kms_src = os.path.join(repo, "node/pkg/ecdsasigner/cloudkms.go")
+kms_ok = False
+try:
+    kms_ok = re.search(r"\nfunc parseSignature\(\w+ \[\]byte, \w+ \[\]byte, \w+ ethcommon\.Address\) \(\[\]byte, error\) \{", open(kms_src).read()) is not None
+except OSError:
+    pass
+kms = os.path.join(build, "procsim_kmsparse.go")
+open(kms, "w").write("""package ecdsasigner
+
+import ethcommon "github.com/ethereum/go-ethereum/common"
+
+// VerifParseKMSSignature is the Cloud KMS signer's signature conversion (nil: not found in this tree).
+var VerifParseKMSSignature func(kmsSignature []byte, digest []byte, pubKey ethcommon.Address) ([]byte, error)%s
+""" % (" = parseSignature" if kms_ok else ""))
+extra = {os.path.join(repo, "node/pkg/ecdsasigner/zz_verif_kmsparse.go"): kms}
 if os.environ.get("VERIF_RACE") == "1":
-    print("{}")
+    print(json.dumps(extra))
     sys.exit(0)
 src = os.path.join(repo, "node/pkg/common/guardianset.go")
 text = open(src).read()
 decl = re.findall(r"\bmu\s+sync\.(?:RW)?Mutex\b", text)
 if len(decl) != 1:
-    print("{}")
+    print(json.dumps(extra))
     sys.exit(0)
 text = re.sub(r"\bmu(\s+)sync\.(?:RW)?Mutex\b", r"mu\1verifChanMutex", text)
 if not re.search(r"\bsync\.", text):
@@ -43,4 +63,5 @@ func (m *verifChanMutex) Unlock()  { <-m.c() }
 func (m *verifChanMutex) RLock()   { m.Lock() }
 func (m *verifChanMutex) RUnlock() { m.Unlock() }
 ''')
-print(json.dumps({src: out, os.path.join(repo, "node/pkg/common/zz_verif_chanmutex.go"): lock}))
+extra.update({src: out, os.path.join(repo, "node/pkg/common/zz_verif_chanmutex.go"): lock})
+print(json.dumps(extra))
